@@ -7,6 +7,7 @@ from ..lit import canon
 
 ID = "C02"
 LEVEL = "exploration"
+W3_CONTRACTS = ['K2', 'K2b']  # the repository's own tests are also run under these contracts
 DECIDING = ["ConditionBinaryOp.__init__", "ConditionBinaryOp._filter", "FilteredDataBinaryOp.__init__"]
 RULE = ("tree cases: condition tree (depth<=5 quick / 8 thorough, null operands in every position, "
         "value+key or value+index leaves) built bottom-up with python operators or as and/or/xor spec "
